@@ -10,6 +10,7 @@ from harness.drivers import synchb as D
 from harness.validate import validate
 
 FLAGS = {f for f, i in S.FLAG_INV.items() if i != "FailedNeverPromoted"} | {"rung_accounting"}
+FLAGS_C13 = {"failed_promoted", "failed_promoted_too_few_valid", "scheduler_raised", "resume_not_paused", "resume_after_removable"}
 
 
 def gen(constants, genlen, num, seed):
@@ -68,11 +69,27 @@ def tables(tier):
     b = S.base
     t = {"hb31": b(), "hb31_max": b(IsMin=False, MRA=False), "sh31": b(SysName="sh31", NT=4),
          "cust": b(SysName="cust", Vals={0, 1}), "hb421": b(SysName="hb421", NT=6, Vals={0, 1}),
-         "hb31_nofault": b(Faults=False, MaxRun=3, NT=6)}
+         "hb31_nofault": b(Faults=False, MaxRun=3, NT=6),
+         # two failures in one rung: fewer valid results than slots in the next rung
+         "cust_2f": b(SysName="cust", NT=5, Vals={0, 1}, MaxFaults=2, MaxRun=3)}
     if tier == "thorough":
         t["hb421_3w"] = b(SysName="hb421", NT=7, Vals={0, 1}, MaxRun=3)
-        t["cust_2f"] = b(SysName="cust", NT=6, Vals={0, 1, 2}, MaxFaults=2, MaxRun=3)
+        t["cust_2f_deep"] = b(SysName="cust", NT=6, Vals={0, 1, 2}, MaxFaults=2, MaxRun=3)
     return t
+
+
+def campaign_c13(rep, tier, seed):
+    """Scheduler-level failures of synchronous Hyperband, judged under C13."""
+    total = {}
+    for name, c in {"hb31": S.base(), "cust_2f": S.base(SysName="cust", NT=5, Vals={0, 1}, MaxFaults=2, MaxRun=3),
+                    "hb421": S.base(SysName="hb421", NT=6, Vals={0, 1}, MaxFaults=2)}.items():
+        r = S.run_mc(c, S.INV + ["FailedNeverPromoted"] if False else S.INV)
+        rep.model(f"SyncHB_MC[{name}]", r)
+        g = gen(c, 14 if tier == "quick" else 20, 25 if tier == "quick" else 300, seed * 171 + len(name))
+        cnt = drive_validate(rep, g.gen, c, FLAGS_C13, f"synchb-failures:{name}", seed * 1000 + 5, pid="C13")
+        for k, v in cnt.items():
+            total[k] = total.get(k, 0) + v
+    return total
 
 
 def run(rep, tier, seed):
